@@ -14,7 +14,16 @@ RULE = ("1-32 concurrent requester goroutines (distinct payloads) on a real engi
         "Context.Sender() at the responder = the response PID, the response PID unregistered after Result(), per reply whether "
         "Respond returned and the DeadLetterEvents a monitor saw for it.  Wall-clock enters only as bounds (a reply whose "
         "Respond returned >= 20 ms before the deadline must be returned).  A case is non-trivial when it reaches a timeout, a "
-        "late reply, a swallowed further reply, a raced dead letter, ...; distinct = distinct scenario")
+        "late reply, a swallowed further reply, a raced dead letter, ...; distinct = distinct scenario.  "
+        "Two PROBABILISTIC stress detectors, judged by the same clauses on counts (every judged field is a logical fact about a "
+        "completed Request/Result pair; timeouts are recorded, never judged; no elapsed-time bound enters a verdict): "
+        "(reqstorm) 16 requester goroutines in parallel x 12500 (thorough 125000) uniquely tokenised requests to 8 echo responders, "
+        "2 s timeout, budget tripled when exactly one collision has been seen, stops at the second response-id collision / first foreign value / first PID left registered: a returned "
+        "token must be the request's own unless the two requests drew the same response id, and at most one such collision per "
+        "run is tolerated (a 31-bit uniform draw gives about 1e-8 per request); (reqboundary) 6 requester/responder pairs x 700 "
+        "(thorough 7000) rounds, for timeouts of 400 and 300 us: the responder busy-waits and calls Respond at an instant swept "
+        "from 20 us before to 230 us after the moment Result()'s timeout is due; after EVERY Result() the Response must not "
+        "be the registry entry of its PID any more, and a returned value must be that round's token")
 EXHAUSTIVE = False
 TRUSTED_BASE = [
     "Coq 8.16.1 kernel; vm_compute (oracle and correspondence predicates on the observations); no native_compute",
@@ -27,6 +36,9 @@ TRUSTED_BASE = [
     "is monotonic in the harness",
 ]
 ASSUMPTIONS = [
+    "the stress parts reqstorm / reqboundary are probabilistic: they can miss a fault that needs a rarer interleaving than their "
+    "budget reaches (measured on the seeded faults: see the module's report); they cannot fire on a correct tree except through a "
+    "genuine double collision of 31-bit random ids in one run (< 1e-6)",
     "hand-written transition system Response.v of response.go / Engine.Request / Context.Respond; the theorems are invariants of "
     "all its runs; tie = the model's deterministic consequences and the property's clauses evaluated on concurrent runs of the real "
     "code (no lock-step replay: the runs are timed)",
@@ -122,7 +134,7 @@ class ReqResp(Part):
         return [{"input": c, "class": "n=%d" % len(c["requests"])} for c in cases]
 
     def to_coq(self, inp, obs):
-        return "{| c_reqs := %s; c_dupids := %s; c_stuck := %s |}" % (
+        return "{| c_reqs := %s; c_dupids := %s; c_stuck := %s; c_stress := None |}" % (
             C.clist([oreq_coq(rq, o) for rq, o in zip(inp["requests"], obs["reqs"])]),
             C.cnat(min(obs["dupids"], 4999)), C.cnat(min(obs["stuck"], 4999)))
 
@@ -149,7 +161,62 @@ class ReqResp(Part):
         return {"stuck": obs.get("stuck"), "dupids": obs.get("dupids"), "note": obs.get("note"), "reqs": obs["reqs"][:6]}
 
 
-PARTS = [ReqResp()]
+def stress_coq(kind, o):
+    cap = lambda x: C.cnat(min(int(x), 4999))
+    return ("{| c_reqs := []; c_dupids := 0%%nat; c_stuck := 0%%nat; c_stress := Some {| s_kind := %s; s_hrequests := %s; "
+            "s_values := %s; s_errors := %s; s_wrong := %s; s_wrong_unexplained := %s; s_foreign := %s; "
+            "s_still_registered := %s; s_collisions := %s; s_panics := %s |} |}") % (
+        C.cnat(kind), cap(o.get("requests", o.get("rounds", 0)) // 100), C.cbool(o.get("values", 0) > 0),
+        C.cbool(o.get("timeouts", o.get("errors", 0)) > 0), cap(o.get("wrong", 0)),
+        cap(o.get("wrong_unexplained", o.get("wrong", 0))), cap(o.get("foreign", 0)), cap(o.get("still_registered", 0)),
+        cap(o.get("collisions", 0)), cap(o.get("panics", 0)))
+
+
+class StressPart(Part):
+    """probabilistic detectors: one harness process per case, cases one after the other (they load every core)"""
+    exec_module = "ResponseExec"
+    parallel = False
+    confirm = False      # a genuine hit of a rare race need not repeat in a second run; the verdicts are logical facts
+    kind = 0
+    branch_names = {11: "storm_run", 12: "boundary_run", 13: "values_and_timeouts_both_seen", 14: "response_id_collision",
+                    15: "fifty_thousand_or_more_requests"}
+
+    def to_coq(self, inp, obs):
+        return stress_coq(self.kind, obs)
+
+    def describe_obs(self, obs):
+        return obs
+
+    def extra_coverage(self, inputs, obs):
+        return dict(requests=sum(o.get("requests", o.get("rounds", 0)) for o in obs),
+                    harness_ms=sum(o.get("ms", 0) for o in obs),
+                    anomalies=sum(o.get("wrong", 0) + o.get("foreign", 0) + o.get("still_registered", 0) + o.get("collisions", 0)
+                                  + o.get("panics", 0) for o in obs),
+                    timeouts_recorded_not_judged=sum(o.get("timeouts", 0) for o in obs))
+
+
+class ReqStorm(StressPart):
+    name = "reqstorm"
+    family = "reqstorm"
+    kind = 0
+
+    def generate(self, rng, tier):
+        per = 12500 if tier == "quick" else 125000
+        return [{"input": {"goroutines": 16, "per": per, "responders": 8, "timeout_ms": 2000}, "class": "storm"}]
+
+
+class ReqBoundary(StressPart):
+    name = "reqboundary"
+    family = "reqboundary"
+    kind = 1
+
+    def generate(self, rng, tier):
+        rounds = 700 if tier == "quick" else 7000
+        return [{"input": {"pairs": 6, "rounds": rounds, "timeout_us": t, "from_us": -20, "to_us": 230}, "class": "boundary"}
+                for t in (400, 300)]
+
+
+PARTS = [ReqResp(), ReqStorm(), ReqBoundary()]
 
 
 def thorough_extra(work):
